@@ -811,7 +811,9 @@ def sc_cg(V, P, cfg):
     bm = np.asarray(b).reshape(n, ncol)
 
     def state_invariants():
-        # (1) at every tolerance test, the residual the code measures is the true residual of its current iterate
+        # (1) at every tolerance test, the residual the code measures is the true residual of its current iterate.  These are
+        #     polynomial identities (closed by the simplifier); a short solver time-out, then the fallback probe
+        P.timeout_ms = min(P.timeout_ms, 2500)
         for i_, (r_, x_) in enumerate(snaps):
             obl = P.arrays_eq("cg:invariant[%d] r==b-op(A)x" % i_, np.asarray(r_).reshape(n, ncol),
                               bm - _op(A, t) @ np.asarray(x_).reshape(n, ncol), kind=k + ":invariant")
@@ -824,7 +826,12 @@ def sc_cg(V, P, cfg):
             try:
                 x = s.solve(b.copy(), x0=(None if x0 is None else x0.copy()), trans=t)
             except ValueError as e:
-                if not (V.symbolic and "at least one array" in str(e)):
+                # np.stack([]) in orth(): every candidate direction was dropped.  Only the exact-zero test `beta_i == 0` taken
+                # on its true side (an equality atom as the last branch condition) is accepted as a cut; anything else is
+                # an exception of the code under test
+                def zero_test(t_):
+                    return z3.is_eq(t_) or (z3.is_and(t_) and all(z3.is_eq(ch) for ch in t_.children()))
+                if not (V.symbolic and "at least one array" in str(e) and V.c.pc and zero_test(V.c.pc[-1])):
                     raise
                 broke = True
         warned = any("Maximum iterations" in str(w_.message) for w_ in wl)
@@ -848,7 +855,9 @@ def sc_cg(V, P, cfg):
     if P is not None:
         P.holds("cg:shape", np.shape(x) == shp, kind="cg:shape")
         P.holds("cg:residual-norm-observed", len(snaps) >= 1, kind="cg:invariant")
+        t_keep = P.timeout_ms
         state_invariants()
+        P.timeout_ms = t_keep
         if snaps:
             # (2) the returned x is the iterate of the last tolerance test
             P.arrays_eq("cg:returned-x-is-tested-x", np.asarray(x).reshape(n, ncol), np.asarray(snaps[-1][1]).reshape(n, ncol),
@@ -1204,13 +1213,9 @@ def items(tier):
             for tag, ac, xc in DATA:
                 if tag == "rc" and n > 2:
                     continue
-                if which == "sor" and (tag == "rc" or (n == 4 and ac)):
+                if which == "sor" and tag == "rc":
                     continue       # real sparse matrix + complex rhs: scipy's SuperLU raises TypeError (documented limitation)
-                # SOR, complex, n >= 3: complex off-diagonal part, real non-zero diagonal (the polynomial identities with a
-                # complex diagonal have degree > 20 and are not normalised by z3 in the budget; n = 2 has the complex diagonal)
-                rd = which == "sor" and ac and n >= 3
-                add("precond", "%s-n%d-%s%s" % (which, n, tag, "-realdiag" if rd else ""), n=n, ac=ac, xc=xc, which=which,
-                    realdiag=rd)
+                add("precond", "%s-n%d-%s" % (which, n, tag), n=n, ac=ac, xc=xc, which=which)
     for n in b["auto_n"]:
         for cls in ("diagonal", "diagonal-c", "sym-posdiag", "sym-indef", "complex-symmetric", "hermitian", "hermitian-posdiag",
                     "general", "general-c", "lower-triangular", "upper-triangular", "upper-triangular-c", "free", "free-c"):
@@ -1328,7 +1333,12 @@ def replay(cfg, label, env, case):
         except Exception as e:
             return dict(reproduced=type(e).__name__ == label.split(":", 1)[1], detail="%s: %s" % (type(e).__name__, str(e)[:300]))
         return dict(reproduced=False, detail="no exception on the real library")
-    obs = SCEN[kind](V, None, cfg)
+    try:
+        obs = SCEN[kind](V, None, cfg)
+    except Exception as e:
+        # the real library / the real solver class raises on an input of the documented class: the clause (a solution is
+        # returned) is violated whatever the label was
+        return dict(reproduced=True, detail="the real code raised %s: %s" % (type(e).__name__, str(e)[:300]))
     if kind in ("diagonal", "lu", "ldl", "cholesky", "qr", "sparselu", "precond"):
         parts = label.split("[")[0].split(":")
         if len(parts) < 3 or parts[1] not in TRANS:
